@@ -12,7 +12,7 @@ BOUNDS = {"all": "(a) alias tables over 3 (quick) / 4 (thorough) names whose tar
                  "texts (structs, unions, anonymous members, typedef struct with several names and pointer names, enums, flags, bit-fields, "
                  "#define, typedef chains, self reference): every single insertion of a trivia atom (space, tab, newline, CRLF, block "
                  "comment, multi-line block comment, line comment) at every token boundary outside array brackets and #define lines, pairs "
-                 "of insertions sampled by VERIF_SEED (thorough), and every dependency-respecting order of the top-level definitions "
+                 "of insertions sampled by VERIF_SEED (thorough), and texts that end right after a comment (no final newline), and every dependency-respecting order of the top-level definitions "
                  "(<= 24 orders per text); loaded types compared by name table, constants, layout signature and by parse/dump of symbolic "
                  "bytes; (c) trivia characters as solver variables: not built (see DESIGN.md)"}
 
@@ -37,6 +37,9 @@ CORPUS = {
                  ("test", [], "struct test {\n    uint8 a;\n    uint64 b;\n};\n")],
     "union": [("U", [], "union U {\n    uint32 a;\n    uint8 b[4];\n};\n"),
               ("test", ["U"], "typedef struct {\n    U u;\n    long long big;\n    unsigned long long ubig;\n} test;\n")],
+    "sametag": [("A", [], "struct A {\n    uint8 n;\n    struct entry {\n        uint8 a;\n    } entries[2];\n};\n"),
+                ("B", [], "struct B {\n    struct entry {\n        uint32 x;\n        uint16 y;\n    } entries[2];\n    uint8 t;\n};\n"),
+                ("test", ["A", "B"], "struct test {\n    A a;\n    B b;\n    uint48 u[2];\n    int48 s[2];\n};\n")],
     "multi": [("A", [], "struct A {\n    uint8 x;\n};\n"), ("B", [], "struct B {\n    uint16 y;\n};\n"), ("Cc", [], "typedef uint32 Cc;\n"),
               ("test", ["A", "B", "Cc"], "struct test {\n    A a;\n    B b;\n    Cc c;\n};\n")],
 }
@@ -123,6 +126,8 @@ def make(case):
         text = base_text
         for off, atom in sorted(case["inserts"], reverse=True):
             text = text[:off] + atom + text[off:]
+    elif case["kind"] == "tail":
+        text = base_text.rstrip("\n") + case["tail"]
     else:
         text = "".join(units[i][2] for i in case["order"])
     cfg = case["cfg"]
@@ -294,6 +299,9 @@ def cases(tier, seed):
             for _ in range(300):
                 ins = sorted([[rng.choice(bs), rng.choice(ATOMS)] for _ in range(rng.randint(2, 4))])
                 yield {"label": f"{cname} trivia-multi {ins!r}"[:80], "corpus": cname, "kind": "trivia", "inserts": ins, "cfg": rng.choice(cfgs)}
+        for tail in (" // trailing comment without a newline", "// c", " /* c */", "\n// c", "\n\n   ", "\r\n", ""):
+            for cfg in cfgs[:1]:
+                yield {"label": f"{cname} tail {tail!r}", "corpus": cname, "kind": "tail", "tail": tail, "cfg": cfg}
         for perm in orders(units):
             for cfg in cfgs:
                 yield {"label": f"{cname} order {list(perm)}", "corpus": cname, "kind": "order", "order": list(perm), "cfg": cfg}
